@@ -4,6 +4,11 @@ import json, subprocess
 
 # id: (level, engine, technique, level text, level note, design ref)
 CHECKS = {
+ "C04": ("model_checking", "explore",
+         "exhaustive enumeration of macro binding/nesting/resource-graph spaces against a reference expander; graphs and depth sweeps in watchdog-supervised worker processes",
+         "Complete products of (body shape x binding form x parameter name x caller-argument subset x inv placement x stand-alone/step), of nesting chains of depth 1..4 (per-level name and forwarding form, pipelines, inverted levels), all 8000 assignments of bodies to three mutually referring macros x 3 entry points, rings of length 1..50 and legitimate chains of depth 0..50: each invocation must be accepted exactly when its reference expansion is valid and then behave bit-identically to the composition of the expansion's stand-alone elementary steps; every instantiation must return within the watchdog limit on a 2 MiB stack.",
+         "Trusts the reference expander (environment-passing substitution transcribed from the property statement and Rumination 009). Parameter names outside {a,m,x,z}, nesting deeper than 4 with forwarding (deeper only for the four sweep shapes) and graphs of more than 3 macros are not covered. Exponential but finite expansion of doubling DAGs is not judged.",
+         "DESIGN.md §3 C04"),
  "C03": ("model_checking", "explore",
          "explicit-state exploration of the program tree: every pipeline up to a length bound x every modifier placement, real code vs. reference interpreter",
          "Every pipeline of length 1..2 over 15 base steps (elementary, one-way, and six kinds of user macros incl. directional, nested, inverted-last-step and stack bodies) x 5 inv spellings x 6 omit spellings, and length 3 over a reduced alphabet (thorough: length 3 full, 4..5 reduced), is instantiated and applied in both directions; results and counts are compared bit for bit with a reference interpreter that holds the program as a tree and applies stand-alone instantiations of the elementary steps one after another.",
@@ -53,8 +58,8 @@ def main():
         },
         "engines": [
             {"name": "space", "path": "/verif/mc/src/engine.rs", "kind_free_text": "exhaustive mixed-radix product enumeration on 16 threads (par_range/decode)", "serves_properties": []},
-            {"name": "explore", "path": "/verif/mc/src/props", "kind_free_text": "explicit-state / program-tree exploration of the real API against reference models written in Rust", "serves_properties": ["C03", "C12"]},
-            {"name": "workers", "path": "/verif/mc/src/engine.rs", "kind_free_text": "worker subprocesses (2 MiB stack, 4 GiB address space, watchdog) for hang / overflow / abort detection", "serves_properties": []},
+            {"name": "explore", "path": "/verif/mc/src/props", "kind_free_text": "explicit-state / program-tree exploration of the real API against reference models written in Rust", "serves_properties": ["C03", "C04", "C12"]},
+            {"name": "workers", "path": "/verif/mc/src/engine.rs", "kind_free_text": "worker subprocesses (2 MiB stack, 4 GiB address space, watchdog) for hang / overflow / abort detection", "serves_properties": ["C04"]},
         ],
         "checks": checks,
         "not_applicable": na,
